@@ -166,6 +166,24 @@ public:
     }
     auto it = S.tmp.find(E);
     if (it != S.tmp.end()) return it->second;
+    // element of a `const std::vector<node_handle>&` parameter (the reader's handle map): the vector keeps its reference
+    if (auto *OC = dyn_cast<CXXOperatorCallExpr>(E)) if (OC->getOperator() == OO_Subscript && OC->getNumArgs() == 2)
+      if (auto *DR = dyn_cast<DeclRefExpr>(strip(OC->getArg(0)))) if (auto *PV = dyn_cast<ParmVarDecl>(DR->getDecl())) {
+        QualType PT = PV->getType();
+        if (PT->isReferenceType() && PT.getNonReferenceType().isConstQualified()) {
+          // std::vector's const_reference loses the typedef: look at the element type as written in the parameter's declaration
+          bool handles = isNodeHandleType(E->getType());
+          QualType VT = PT.getNonReferenceType();
+          for (int i = 0; i < 4 && !handles; i++) {
+            if (auto *ET = dyn_cast<ElaboratedType>(VT.getTypePtr())) { VT = ET->getNamedType(); continue; }
+            if (auto *TS = dyn_cast<TemplateSpecializationType>(VT.getTypePtr())) {
+              if (TS->getNumArgs() >= 1 && TS->getArg(0).getKind() == TemplateArgument::Type) handles = isNodeHandleType(TS->getArg(0).getAsType());
+            }
+            break;
+          }
+          if (handles) return S.fresh(B);
+        }
+      }
     if (auto *MC = dyn_cast<CXXMemberCallExpr>(E)) if (const CXXMethodDecl *MD = MC->getMethodDecl()) if (MD->getNameAsString() == "down") {
       if (const VarDecl *NV = nodeVarOf(MC->getImplicitObjectArgument())) { auto k = S.nodeKind.find(NV); if (k != S.nodeKind.end() && (k->second == 1 || k->second == 3)) return S.fresh(B); }
       // a child pointer read through a const node (const unpacked_node& / const unpacked_node* parameter): the node keeps its reference
@@ -403,8 +421,15 @@ public:
           overwriteVar(S, VD, v, BO);
         } else {
           bool r; if (isNodeHandleType(BO->getLHS()->getType(), r)) {
-            // store into untracked location (array elt, field): ownership escapes -> moved, no alarm
-            int v = valueOf(S, BO->getRHS()); if (S.tok[v] == O) S.tok[v] = M;
+            // a child slot of the node being filled (this->_down[z] inside unpacked_node) owns its reference
+            bool ownSlot = false;
+            if (auto *AS = dyn_cast<ArraySubscriptExpr>(strip(BO->getLHS()))) if (auto *ME = dyn_cast<MemberExpr>(strip(AS->getBase())))
+              if (isa<CXXThisExpr>(strip(ME->getBase())) && ME->getMemberDecl()->getNameAsString() == "_down") ownSlot = true;
+            if (ownSlot) { consume(S, BO->getRHS(), BO, "_down[]="); }
+            else {
+              // store into untracked location (array elt, field): ownership escapes -> moved, no alarm
+              int v = valueOf(S, BO->getRHS()); if (S.tok[v] == O) S.tok[v] = M;
+            }
           }
         }
       }
